@@ -37,7 +37,9 @@ REQUIRED_THEOREMS = ['duration_timex_reads_back', 'duration_value_matches_timex'
                      'relative_unit_ok', 'rest_of_day_ok', 'parse_duration_past', 'parse_duration_future',
                      'parse_duration_no_prefix_rejected', 'part_of_day_inside_one_day', 'specific_time_of_day_ok',
                      'simple_cases_ok', 'simple_cases_reversed_rejected', 'merge_both_ok', 'merge_begin_date_ok',
-                     'merge_begin_date_reversed_witness', 'date_period_ok', 'date_period_cross_midnight_rejected']
+                     'merge_begin_date_reversed_witness', 'date_period_ok', 'date_period_cross_midnight_rejected',
+                     # … its repaired variants (findings/dtperiod/*.diff; the correspondence probes which one the tree follows)
+                     'variants_prefix', 'merge_begin_date_fixed_ok', 'merge_end_date_fixed_ok', 'date_period_fixed_ok']
 RULE = ('N in {1,2,3,7,30,365,1000,5000} (quick: 3 of them per spelling) × every spelling of every culture\'s duration '
         'unit_map; ordered pairs of absolute dates and of clock times in English; every range entity over the '
         'Python-supported DateTime Specs inputs of all cultures; non-trivial = distinct query that produced an entity of '
